@@ -85,6 +85,48 @@ class ListV:
         return 'ListV(%r)' % (self.items,)
 
 
+class Poison:
+    """Bound to a name whose defining statement (module or class level) the
+    interpreter could not follow: reading it is inexact, not a NameError /
+    AttributeError the code would never see."""
+
+    def __init__(self, why):
+        self.why = why
+
+
+def bound_names(stmt):
+    """Names a module- or class-level statement binds."""
+    import ast
+    out = []
+
+    def targets(t):
+        if isinstance(t, ast.Name):
+            out.append(t.id)
+        elif isinstance(t, (ast.Tuple, ast.List)):
+            for x in t.elts:
+                targets(x)
+        elif isinstance(t, ast.Starred):
+            targets(t.value)
+    if isinstance(stmt, ast.Assign):
+        for t in stmt.targets:
+            targets(t)
+    elif isinstance(stmt, (ast.AnnAssign, ast.AugAssign)):
+        targets(stmt.target)
+    elif isinstance(stmt, (ast.FunctionDef, ast.AsyncFunctionDef,
+                           ast.ClassDef)):
+        out.append(stmt.name)
+    elif isinstance(stmt, (ast.For, ast.With, ast.If, ast.Try, ast.While)):
+        for sub in ast.walk(stmt):
+            if sub is not stmt and isinstance(
+                    sub, (ast.Assign, ast.AnnAssign, ast.AugAssign,
+                          ast.FunctionDef, ast.ClassDef)):
+                out.extend(bound_names(sub))
+    elif isinstance(stmt, (ast.Import, ast.ImportFrom)):
+        for a in stmt.names:
+            out.append((a.asname or a.name).split('.')[0])
+    return out
+
+
 class IterV(ListV):
     """One-shot iterator over known elements (what map / filter / zip /
     enumerate / reversed / iter return): iterating it, or testing membership,
